@@ -154,6 +154,11 @@ impl Minimizer {
             c.env_before = None;
             self.try_accept(cur, c);
         }
+        if cur.clock_step_ns > 0 {
+            let mut c = cur.clone();
+            c.clock_step_ns = 0;
+            self.try_accept(cur, c);
+        }
         if cur.heap_perturb > 0 {
             let mut c = cur.clone();
             c.heap_perturb = 0;
